@@ -51,6 +51,14 @@ func overlayFor(id, harnessDir string, u Unit) (map[string]string, error) {
 		dst := filepath.Join(repoDir, u.Dir, "zz_verif_"+strings.ToLower(id)+"_"+base+".go")
 		ov[dst] = src
 	}
+	for _, x := range u.Extra {
+		src := filepath.Join(harnessDir, x.File)
+		if _, err := os.Stat(src); err != nil {
+			return nil, err
+		}
+		base := strings.TrimSuffix(filepath.Base(x.File), ".go")
+		ov[filepath.Join(repoDir, x.Dir, "zz_verif_"+strings.ToLower(id)+"_"+base+".go")] = src
+	}
 	return ov, nil
 }
 
